@@ -502,6 +502,7 @@ type job struct {
 	st   int
 	seq  []int
 	side bool // the first variant is built on the tip's PARENT: a sibling of the tip, stored without being connected
+	hf   bool // blocks go the client's route: header checked and accepted first, data checked on the same object later
 }
 
 var watchdog = 180 * time.Second
@@ -514,8 +515,9 @@ type stats struct {
 	twinLost map[string]bool // valid variants the implementation refused (not judged by C05)
 }
 
-func runJob(p *chainx.Prefix, stName string, vs []variant, seq []int, side bool, st *stats, trans *int64) *outcome {
+func runJob(p *chainx.Prefix, stName string, vs []variant, seq []int, side, hf bool, st *stats, trans *int64) *outcome {
 	s := p.NewSession("c05")
+	s.HF = hf
 	defer s.Close()
 	s.Now = func() int64 { return NOW }
 	var out *outcome
@@ -732,6 +734,7 @@ func main() {
 				State string   `json:"state"`
 				Seq   []string `json:"variants"`
 				Side  bool     `json:"as_sibling_of_tip"`
+				HF    bool     `json:"headers_first"`
 			} `json:"replay"`
 		}
 		json.Unmarshal(b, &rec)
@@ -747,7 +750,7 @@ func main() {
 					}
 				}
 			}
-			o := runJob(prefixes[i], d.name, vs, seq, rec.Replay.Side, st, &trans)
+			o := runJob(prefixes[i], d.name, vs, seq, rec.Replay.Side, rec.Replay.HF, st, &trans)
 			code := 0
 			if o != nil {
 				fmt.Fprintf(ev.Out, "replay: %s: %s\n", o.key, o.what)
@@ -774,7 +777,7 @@ func main() {
 		go func() {
 			defer wg.Done()
 			for j := range jobs {
-				o := runJob(prefixes[j.st], defs[j.st].name, vs, j.seq, j.side, st, &trans)
+				o := runJob(prefixes[j.st], defs[j.st].name, vs, j.seq, j.side, j.hf, st, &trans)
 				atomic.AddInt64(&hist, 1)
 				var names []string
 				for _, i := range j.seq {
@@ -784,7 +787,10 @@ func main() {
 					if j.side {
 						o.key += "-as-sibling-of-tip"
 					}
-					r.Report(o.key, o.what, map[string]interface{}{"state": defs[j.st].name, "variants": names, "as_sibling_of_tip": j.side, "trace": o.trace})
+					if j.hf {
+						o.key += "-by-headers-first"
+					}
+					r.Report(o.key, o.what, map[string]interface{}{"state": defs[j.st].name, "variants": names, "as_sibling_of_tip": j.side, "headers_first": j.hf, "trace": o.trace})
 				} else {
 					samples.Add(map[string]interface{}{"state": defs[j.st].name, "variants": names})
 				}
@@ -795,8 +801,10 @@ func main() {
 		for i := range vs {
 			jobs <- job{st: si, seq: []int{i}}
 			jobs <- job{st: si, seq: []int{i, 0}} // followed by a valid block: a refused block must do no damage
+			jobs <- job{st: si, seq: []int{i, 0}, hf: true}
 			if defs[si].n >= 1 && defs[si].n <= 255 {
 				jobs <- job{st: si, seq: []int{i, 0}, side: true}
+				jobs <- job{st: si, seq: []int{i, 0}, side: true, hf: true}
 			}
 			if r.Thorough() {
 				for k := range vs {
